@@ -118,6 +118,7 @@ func ruleC07(c *Check, p *Prog) {
 	ex := c.Explanation
 	ruleC12(c, p)
 	c.Explanation = ex + " The threshold closed form and the uniformity statistic are decided by C12's obligations, re-evaluated here."
+	checkRegistry(c, p)
 	// the round functions the descriptors refer to: results[i] = TestMethodArr[i].Runner(data) for all 15 / the first 12 items
 	checkRound(c, p, "Round15", 15, false)
 	checkRound(c, p, "Round12", 12, true)
